@@ -322,6 +322,86 @@ example : (erun ⟨[], [(pA, .get 0), (pA, .get 0), (pA, .get 0)]⟩ [0, 1, 2, 0
     [(pA, .done (.ok pA)), (pA, .done (.ok pA)), (pA, .done (.ok pA))] := by decide
 
 
+/-! ### concurrent ensures with DIFFERENT definitions -/
+
+/-- what an ensure may answer: "ok" only with a pipe that carries the caller's own two conditions -/
+def EnsureSound (x : Pipe × Epc) : Prop :=
+  match x.2 with
+  | .done (.ok q) => q.fltCond = x.1.fltCond ∧ q.tagsCond = x.1.tagsCond
+  | _ => True
+
+theorem estep_sound (s s' : EState) (a : Nat) (h : ∀ x ∈ s.pcs, EnsureSound x) (hs : estep s a = some s') :
+    ∀ x ∈ s'.pcs, EnsureSound x := by
+  unfold estep at hs
+  -- every branch replaces actor `a`'s entry only; it is enough to show the new entry is sound
+  have key : ∀ (y : Pipe × Epc) (reg : Reg), EnsureSound y →
+      ∀ x ∈ ({ reg := reg, pcs := s.pcs.set a y } : EState).pcs, EnsureSound x := by
+    intro y reg hy x hx
+    rcases List.mem_or_eq_of_mem_set hx with hx | rfl
+    · exact h x hx
+    · exact hy
+  cases hpa : s.pcs[a]? with
+  | none => simp [hpa] at hs
+  | some pp =>
+    obtain ⟨p, pc⟩ := pp
+    cases pc with
+    | get n =>
+      simp only [hpa] at hs
+      cases hf : s.reg.find p.name with
+      | none => simp only [hf, Option.some.injEq] at hs; subst hs; exact key _ _ (by simp [EnsureSound])
+      | some q =>
+        simp only [hf] at hs
+        by_cases hq : (q.fltCond != p.fltCond || q.tagsCond != p.tagsCond) = true
+        · simp only [hq, if_true, Option.some.injEq] at hs; subst hs; exact key _ _ (by simp [EnsureSound])
+        · simp only [hq, Bool.false_eq_true, if_false, Option.some.injEq] at hs; subst hs
+          refine key _ _ ?_
+          simp only [EnsureSound]
+          simp only [Bool.or_eq_true, bne_iff_ne, ne_eq, not_or, Decidable.not_not] at hq
+          exact hq
+    | createStart n =>
+      simp only [hpa] at hs
+      cases hf : s.reg.find p.name with
+      | none => simp only [hf, Option.some.injEq] at hs; subst hs; exact key _ _ (by simp [EnsureSound])
+      | some q =>
+        simp only [hf, Option.some.injEq] at hs; subst hs
+        refine key _ _ ?_
+        unfold nextAttempt; split <;> simp [EnsureSound]
+    | createChecked n =>
+      simp only [hpa] at hs
+      cases hf : s.reg.find p.name with
+      | none =>
+        simp only [hf, Option.some.injEq] at hs; subst hs
+        refine key _ _ ?_
+        unfold nextAttempt; split <;> simp [EnsureSound]
+      | some q =>
+        simp only [hf, Option.some.injEq] at hs; subst hs
+        refine key _ _ ?_
+        unfold nextAttempt; split <;> simp [EnsureSound]
+    | done r => simp [hpa] at hs
+
+/-- **An ensure never hands out another definition.** Any number of concurrent `EnsurePipe` callers with ANY
+definitions (same name or not, same conditions or not), any interleaving of their critical sections: a caller
+that is answered "ok" gets a pipe with exactly its own two conditions — if somebody else's definition won the
+name, the answer is the conflict error (or, after three lost attempts, the failure), never the other pipe. -/
+theorem ensure_never_returns_another_definition (r : Reg) (callers : List Pipe) (sched : List Nat) :
+    ∀ x ∈ (erun ⟨r, callers.map (fun p => (p, Epc.get 0))⟩ sched).pcs, EnsureSound x := by
+  have hinit : ∀ x ∈ (⟨r, callers.map (fun p => (p, Epc.get 0))⟩ : EState).pcs, EnsureSound x := by
+    intro x hx
+    obtain ⟨p, _, rfl⟩ := List.mem_map.mp hx
+    simp [EnsureSound]
+  generalize (⟨r, callers.map (fun p => (p, Epc.get 0))⟩ : EState) = s at hinit
+  induction sched generalizing s with
+  | nil => simpa [erun] using hinit
+  | cons a as ih =>
+    simp only [erun]
+    cases hs : estep s a with
+    | none => exact ih s hinit
+    | some s' => exact ih s' (estep_sound s s' a hinit hs)
+
+/-- two ensurers of one name with different conditions: the overtaken one is told "conflict" -/
+example : (erun ⟨[], [(pA, .get 0), (pA', .get 0)]⟩ [0, 0, 1, 1, 1, 1, 0, 0]).pcs =
+    [(pA, .done .conflict), (pA', .done (.ok pA'))] := by decide
+
 /-! ## persistence: the registry survives a clean restart (and an acknowledged definition survives a crash) -/
 
 /-- which operations persist the registry, as the extractor reads it from the source now -/
